@@ -202,7 +202,10 @@ def simulate_with_map(shape, mode, tunit=0):
         chem[n + 1] = 1
     sysm = RDSystem(net, RDGridSpace(w=w, h=h, d=d, cell_env=envs, cell_vol=8.0), state=st, chemostats=chem)
     ts = [0.0, 0.5, 1.0]
-    if tunit:
+    if tunit == 3:
+        # two requested times closer to each other than the time step (both are reached in the same iteration), then a later one
+        ts = [0.0, 0.55, 0.6, 1.0]
+    elif tunit:
         # the sample times carry their own time unit (the script's is the second): same physical times
         unit, fac = [("ms", 1e-3), ("min", 60.0)][tunit - 1]
         ts = UnitArray([t / fac for t in ts], unit)
@@ -212,7 +215,9 @@ def simulate_with_map(shape, mode, tunit=0):
     a, b = [float(v) for v in plain.data.value], [float(v) for v in out.data.value]
     if len(a) != len(b) or list(out.t.value) != list(plain.t.value) or out.system.space.size() != n:
         return False
-    if len(a) != 3 * 2 * n or any(abs(float(t) * (1.0 if not tunit else float(UnitValue(1.0, str(out.t.units)).convert("s").value)) - w) > 1e-6 for t, w in zip(out.t.value, [0.0, 0.5, 1.0])):
+    if tunit == 3:
+        pass
+    elif len(a) != 3 * 2 * n or any(abs(float(t) * (1.0 if not tunit else float(UnitValue(1.0, str(out.t.units)).convert("s").value)) - w) > 1e-6 for t, w in zip(out.t.value, [0.0, 0.5, 1.0])):
         return False                        # three samples, at the requested physical times
     if mode == 0:
         return all(abs(x - y) <= 1e-9 * (1 + abs(x)) for x, y in zip(a, b))
